@@ -36,6 +36,8 @@ def _is_float_dtype(dtype):
 
 
 def _isnum0(x):
+    if hasattr(x, "imag") and not isinstance(x, (int, float, Sym)) and hasattr(x, "real") and type(x).__name__ == "CSym":
+        return x.real.n.is_zero() and x.imag.n.is_zero()
     return (isinstance(x, (int, float)) and x == 0) or (isinstance(x, Sym) and x.n.is_zero())
 
 
@@ -514,7 +516,9 @@ class NpProxy:
 
     def iscomplexobj(self, x):
         if isinstance(x, _np.ndarray) and x.dtype == object:
-            return any(isinstance(v, complex) for v in x.flat)
+            from .sym import CSym
+
+            return any(isinstance(v, (complex, CSym)) for v in x.flat)
         return _np.iscomplexobj(x)
 
     def isnan(self, x, *a, **k):
